@@ -604,6 +604,9 @@ func (db *RockDB) KVSetWithOpts(ts int64, rawKey []byte, value []byte, duration 
 	// however, we still need del the old expire meta data since it may store the
 	// expire meta data in different place under different expire policy.
 	value, err = db.resetWithNewKVValue(ts, rawKey, value, duration, db.wb)
+	if err != nil {
+		return 0, err
+	}
 	db.wb.Put(keyInfo.VerKey, value)
 	err = db.MaybeCommitBatch()
 	return 1, err
@@ -696,6 +699,9 @@ func (db *RockDB) SetIfEQ(ts int64, rawKey []byte, oldV []byte, value []byte, du
 		// however, we still need del the old expire meta data since it may store the
 		// expire meta data in different place under different expire policy.
 		value, err = db.resetWithNewKVValue(ts, rawKey, value, duration, db.wb)
+		if err != nil {
+			return 0, err
+		}
 		db.wb.Put(keyInfo.VerKey, value)
 		err = db.MaybeCommitBatch()
 	}
